@@ -279,3 +279,188 @@ def check_poly_division(facts, rep):
             rep.violation('E3.P1-poly-division', inst, 'after one step the driver holds %s, expected (0 + q1, r1)' % s1, where=b.where())
         else:
             rep.indet('E3.P1: driver of div_rem outside the recognised fragment: %s over %s' % (sorted(shapes)[:3], sorted(rng)))
+
+
+# ------------------------------------------------------------------ B1: the Bezout invariant of the extended Euclid loop
+class _Opaque(Exception):
+    pass
+
+
+def _padd(p, q, s=1):
+    r = dict(p)
+    for m, c in q.items():
+        r[m] = r.get(m, 0) + s * c
+        if r[m] == 0:
+            del r[m]
+    return r
+
+
+def _pmul(p, q):
+    r = {}
+    for m1, c1 in p.items():
+        for m2, c2 in q.items():
+            m = tuple(sorted(m1 + m2))
+            r[m] = r.get(m, 0) + c1 * c2
+            if r[m] == 0:
+                del r[m]
+    return r
+
+
+def _pshow(p):
+    if not p:
+        return '0'
+    return ' + '.join(('' if c == 1 else ('-' if c == -1 else str(c))) + ('*'.join(m) or '1') for m, c in sorted(p.items()))
+
+
+def check_bezout_loop(facts, rep):
+    """B1 (C07 / C09 / C15: the 2x2 blocks the SNF eliminates with have determinant 1 only if s*x + t*y = d): the loop
+    of the default EucRing::gcdx keeps the invariant
+        x_k = s0*X + t0*Y        y_k = s1*X + t1*Y
+    It is checked *inductively, as a polynomial identity*: the loop-carried values are replaced by symbols, the remainder
+    by x - q*y (the Euclidean contract, q = x / y), and the values at the back edge - whatever the form of the update -
+    are compared with the invariant in the commutative polynomial ring Z[X, Y, q, s0, s1, t0, t1]; likewise the values
+    on entry. The roles are read from the code: (d, s, t) is what the exit returns (up to the common unit E3 checks),
+    y is the local the loop guard tests for zero, s1 / t1 are the locals whose values s0 / t0 take over."""
+    from symex import SymEx
+    b = facts.bodies.get(TRAIT + '::gcdx')
+    if b is None:
+        rep.indet('E3.B1: default EucRing::gcdx not found')
+        return
+    rep.saw(b)
+    try:
+        ps = SymEx(b, havoc_loops=True, max_paths=20000).run()
+    except TooManyPaths as e:
+        rep.indet('E3.B1: %s' % e)
+        return
+    back = [p for p in ps if p.end == 'backedge']
+    exits = [p for p in ps if p.end == 'return' and p.ret is not None and any(isinstance(y, tuple) and y and y[0] == 'loopvar' for y in subterms(p.ret))]
+    inst = 'EucRing::gcdx|x = s0*X + t0*Y and y = s1*X + t1*Y on entry and around the loop'
+    if not back or not exits:
+        rep.indet('E3.B1: EucRing::gcdx has no loop with a result read from it (a different algorithm: not decided)')
+        return
+
+    def lv(t):
+        t = strip(t)
+        return t if (t[0] == 'loopvar' and isinstance(t[2], int)) else None
+
+    def unscale(t):
+        t = strip(t)
+        if _is_call(t, 'ops::Mul::mul') and len(t[2]) == 2:
+            for i in (0, 1):
+                if _unit_of(t[2][1 - i]) is not None and lv(t[2][i]):
+                    return lv(t[2][i])
+        return lv(t)
+    roles = set()
+    for p in exits:
+        r = p.ret
+        if r[0] != 'tuple' or len(r[1]) != 3:
+            rep.indet('E3.B1: gcdx returns %s from its loop' % show(r, -1000)[:80])
+            return
+        roles.add(tuple(unscale(x) for x in r[1]))
+    if len(roles) != 1 or None in list(roles)[0]:
+        rep.indet('E3.B1: the result of the loop of gcdx is not (x, s0, t0) up to a unit: %s' % sorted(show(r_.ret, -1000)[:80] for r_ in exits))
+        return
+    Ld, Ls, Lt = list(roles)[0]
+    # y: the local the guard tests
+    ys = set()
+    for p in back:
+        for c in p.branches():
+            t = strip(c.term)
+            if _is_call(t, 'is_zero') and len(t[2]) == 1 and lv(t[2][0]) and c.value == 0:
+                ys.add(lv(t[2][0]))
+    if len(ys) != 1:
+        rep.indet('E3.B1: loop guard of gcdx is not `!y.is_zero()` on one loop-carried value')
+        return
+    Ly = list(ys)[0]
+    if len({Ld, Ls, Lt, Ly}) != 4:
+        rep.indet('E3.B1: roles of the loop-carried values of gcdx not separated')
+        return
+    sym = {Ls: 's0', Lt: 't0'}
+    P = lambda *m: {tuple(sorted(m)): 1}
+    n_ok = 0
+    problems = []
+    for p in back:
+        def new(L):
+            v = p.mem.get((('local', L[2]), ()))
+            if v is None:
+                raise _Opaque('no value for local %d at the back edge' % L[2])
+            return v
+        try:
+            L1s, L1t = lv(new(Ls)), lv(new(Lt))
+            if not (L1s and L1t) or len({Ld, Ls, Lt, Ly, L1s, L1t}) != 6:
+                rep.indet('E3.B1: s0 / t0 do not take over the value of another loop-carried local (s1 / t1): %s, %s' % (show(new(Ls), -1000)[:60], show(new(Lt), -1000)[:60]))
+                return
+            names = {Ls: 's0', Lt: 't0', L1s: 's1', L1t: 't1'}
+            X, Y = P('X'), P('Y')
+            xk = _padd(_pmul(P('s0'), X), _pmul(P('t0'), Y))
+            yk = _padd(_pmul(P('s1'), X), _pmul(P('t1'), Y))
+
+            def ev(t):
+                t = strip(t)
+                L = lv(t)
+                if L:
+                    if L in names:
+                        return P(names[L])
+                    if L == Ld:
+                        return xk
+                    if L == Ly:
+                        return yk
+                    raise _Opaque('loop-carried value %s' % show(t, -1000))
+                if t[0] == 'call':
+                    if _is_call(t, 'ops::Sub::sub') and len(t[2]) == 2:
+                        return _padd(ev(t[2][0]), ev(t[2][1]), -1)
+                    if _is_call(t, 'ops::Add::add') and len(t[2]) == 2:
+                        return _padd(ev(t[2][0]), ev(t[2][1]))
+                    if _is_call(t, 'ops::Mul::mul') and len(t[2]) == 2:
+                        return _pmul(ev(t[2][0]), ev(t[2][1]))
+                    if _is_call(t, 'ops::Neg::neg') and len(t[2]) == 1:
+                        return _padd({}, ev(t[2][0]), -1)
+                    if (_is_call(t, 'ops::Div::div') or _is_call(t, 'ops::Rem::rem')) and len(t[2]) == 2:
+                        if lv(t[2][0]) == Ld and lv(t[2][1]) == Ly:
+                            return P('q') if _is_call(t, 'ops::Div::div') else _padd(xk, _pmul(P('q'), yk), -1)
+                        raise _Opaque('quotient / remainder of other operands: %s' % show(t, -1000)[:60])
+                    if _is_call(t, 'One::one') and not t[2]:
+                        return {(): 1}
+                    if _is_call(t, 'Zero::zero') and not t[2]:
+                        return {}
+                raise _Opaque(show(t, -1000)[:60])
+            nd, ny, ns0, ns1, nt0, nt1 = [ev(new(L)) for L in (Ld, Ly, Ls, L1s, Lt, L1t)]
+            for what, lhs, rhs in (('x', nd, _padd(_pmul(ns0, X), _pmul(nt0, Y))), ('y', ny, _padd(_pmul(ns1, X), _pmul(nt1, Y)))):
+                if lhs != rhs:
+                    problems.append('after one iteration %s = %s but %s*X + %s*Y = %s (s0, s1, t0, t1 <- %s, %s, %s, %s)' % (
+                        what, _pshow(lhs), 's0' if what == 'x' else 's1', 't0' if what == 'x' else 't1', _pshow(rhs), _pshow(ns0), _pshow(ns1), _pshow(nt0), _pshow(nt1)))
+            # entry
+            ent = {}
+            for (fid, bb_, l), v in p.state.loop_entry.items():
+                if fid == 0:
+                    ent[l] = v
+
+            def ev0(t):
+                t = strip(t)
+                if t == ('arg', 1):
+                    return X
+                if t == ('arg', 2):
+                    return Y
+                if t[0] == 'call' and _is_call(t, 'One::one') and not t[2]:
+                    return {(): 1}
+                if t[0] == 'call' and _is_call(t, 'Zero::zero') and not t[2]:
+                    return {}
+                raise _Opaque('entry value %s' % show(t, -1000)[:60])
+            e = {k: ev0(ent[L[2]]) for k, L in (('x', Ld), ('y', Ly), ('s0', Ls), ('s1', L1s), ('t0', Lt), ('t1', L1t))}
+            for what, a_, b_ in (('x', 's0', 't0'), ('y', 's1', 't1')):
+                rhs = _padd(_pmul(e[a_], X), _pmul(e[b_], Y))
+                if e[what] != rhs:
+                    problems.append('on entry %s = %s but %s*X + %s*Y = %s' % (what, _pshow(e[what]), a_, b_, _pshow(rhs)))
+            n_ok += 1
+        except _Opaque as ex:
+            rep.indet('E3.B1: loop of gcdx outside the recognised fragment: %s' % ex)
+            return
+        except KeyError as ex:
+            rep.indet('E3.B1: no entry value for a loop-carried local of gcdx (%s)' % ex)
+            return
+    if problems:
+        rep.violation('E3.B1-bezout-invariant', inst,
+                      'the loop of EucRing::gcdx does not keep the Bezout invariant: %s - the returned (d, s, t) no longer satisfy s*x + t*y = d once the loop runs long enough, the 2x2 blocks built from them are not unimodular' % problems[0],
+                      where=b.where())
+    else:
+        rep.ok('E3.B1-bezout-invariant', inst, 'inductive over %d back-edge path(s), r = x - q*y' % n_ok)
